@@ -149,6 +149,7 @@ def batch(cmd):
             for i in group:
                 rs = derive_seed(seed, prop, i)
                 ch = Choices(seed=rs)
+                ch.index, ch.base_seed = i, seed
                 want_dec = (i - start) // step < n_samples
                 res = eng.run(ch, dict(params), decoded=want_dec)
                 res["draws"] = ch.draws if (res.get("violations") or want_dec) else None
